@@ -1,5 +1,5 @@
 (* Proofs about containers, string lists and checker-restricted writes (C13). *)
-From Coq Require Import List NArith ZArith Bool Lia Arith Sorted.
+From Coq Require Import List NArith ZArith Bool Lia Arith Sorted Permutation.
 From Storage Require Import Base.Bytes Codec.CodecBase Codec.FieldCodec Codec.FieldCodecProofs
   Codec.StrOrderProofs Codec.Containers.
 Import ListNotations.
@@ -677,4 +677,171 @@ Lemma set_nil_written c name b b' :
 Proof.
   intros H. destruct (apply_op_proceeds c (OpNil name) b b') as (n & Hn & Hl & _); [reflexivity | exact H |].
   cbn in Hn, Hl. inversion Hn; subst n. unfold get_bytes. rewrite Hl. reflexivity.
+Qed.
+
+(* ---- the iteration order of a Go map does not matter ------------------------------------------------- *)
+(* PutMap ranges over the Go map in an unspecified order; the model ranges over the association
+   list.  For distinct keys every order stores the same bucket (or fails alike). *)
+
+Lemma sorted_assoc_ext (V : Type) (l1 l2 : list (str * V)) :
+  Sorted str_lt (a_keys l1) -> Sorted str_lt (a_keys l2) ->
+  (forall k, a_lookup k l1 = a_lookup k l2) -> l1 = l2.
+Proof.
+  revert l2. induction l1 as [|[k1 v1] t1 IH]; intros [|[k2 v2] t2] S1 S2 H.
+  - reflexivity.
+  - specialize (H k2). cbn in H. rewrite str_eqb_refl in H. discriminate.
+  - specialize (H k1). cbn in H. rewrite str_eqb_refl in H. discriminate.
+  - cbn [a_keys map fst] in S1, S2.
+    assert (Hk : k1 = k2).
+    { pose proof (H k1) as H1. pose proof (H k2) as H2. cbn in H1, H2. rewrite str_eqb_refl in H1, H2.
+      destruct (str_eqb k1 k2) eqn:E12; [apply str_eqb_eq in E12; exact E12|].
+      rewrite (str_eqb_sym k2 k1), E12 in H2.
+      symmetry in H1. apply a_lookup_in in H1. apply a_lookup_in in H2.
+      assert (I1 : In k1 (a_keys t2)) by (unfold a_keys; apply in_map_iff; exists (k1, v1); split; [reflexivity | exact H1]).
+      assert (I2 : In k2 (a_keys t1)) by (unfold a_keys; apply in_map_iff; exists (k2, v2); split; [reflexivity | exact H2]).
+      pose proof (sorted_strict_head_min _ _ S1 _ I2) as L1.
+      pose proof (sorted_strict_head_min _ _ S2 _ I1) as L2.
+      exfalso. exact (str_lt_irrefl _ (str_lt_trans _ _ _ L1 L2)). }
+    subst k2.
+    assert (Hv : v1 = v2).
+    { specialize (H k1). cbn in H. rewrite str_eqb_refl in H. inversion H. reflexivity. }
+    subst v2. f_equal. apply IH.
+    + inversion S1; assumption.
+    + inversion S2; assumption.
+    + intros k. destruct (str_eqb k k1) eqn:E.
+      * apply str_eqb_eq in E. subst k.
+        assert (N1 : a_lookup k1 t1 = None).
+        { apply a_lookup_none_keys. intros I. exact (str_lt_irrefl _ (sorted_strict_head_min _ _ S1 _ I)). }
+        assert (N2 : a_lookup k1 t2 = None).
+        { apply a_lookup_none_keys. intros I. exact (str_lt_irrefl _ (sorted_strict_head_min _ _ S2 _ I)). }
+        rewrite N1, N2. reflexivity.
+      * specialize (H k). cbn in H. rewrite E in H. exact H.
+Qed.
+
+Section MapOrder.
+  Variable X : Type.
+  Variable f : X -> res node.
+
+  Definition entry_storable (kx : str * X) : Prop :=
+    exists n, f (snd kx) = Ok n /\ fst kx <> [] /\
+              forall v, n = Leaf v -> len (fst kx) <= MaxKeySize /\ len v <= MaxValueSize.
+
+  Lemma place_ok_conditions k n b b' :
+    place k n b = Ok b' -> k <> [] /\ forall v, n = Leaf v -> len k <= MaxKeySize /\ len v <= MaxValueSize.
+  Proof.
+    destruct n as [v|c]; cbn [place].
+    - unfold b_put. destruct (len k =? 0) eqn:E0; [discriminate|].
+      destruct (MaxKeySize <? len k) eqn:E1; [discriminate|]. destruct (MaxValueSize <? len v) eqn:E2; [discriminate|].
+      intros _. split; [apply len_zero_iff; exact E0|]. intros v' Hv. inversion Hv; subst v'.
+      apply N.ltb_ge in E1. apply N.ltb_ge in E2. split; assumption.
+    - unfold b_put_bucket. destruct (len k =? 0) eqn:E0; [discriminate|].
+      intros _. split; [apply len_zero_iff; exact E0|]. intros v' Hv. discriminate.
+  Qed.
+
+  Lemma place_fresh_storable k n b :
+    k <> [] -> (forall v, n = Leaf v -> len k <= MaxKeySize /\ len v <= MaxValueSize) -> a_lookup k b = None ->
+    place k n b = Ok (a_insert k n b).
+  Proof.
+    intros Hk Hleaf Hn. destruct n as [v|c].
+    - destruct (Hleaf v eq_refl) as [H1 H2]. apply place_fresh; assumption.
+    - cbn [place]. unfold b_put_bucket. rewrite (proj2 (len_zero_iff k) Hk), Hn. reflexivity.
+  Qed.
+
+  Lemma fill_map_storable : forall (m : list (str * X)) (acc c : bucket),
+    fill_map f m acc = Ok c -> Forall entry_storable m.
+  Proof.
+    induction m as [|[k x] t IH]; intros acc c H; [constructor|].
+    cbn [fill_map] in H. destruct (f x) as [n| | |] eqn:Ef; cbn [bind] in H; try discriminate.
+    destruct (place k n acc) as [acc1| | |] eqn:Ep; cbn [bind] in H; try discriminate.
+    constructor; [|exact (IH _ _ H)].
+    destruct (place_ok_conditions _ _ _ _ Ep) as [H1 H2]. exists n. cbn [fst snd]. repeat split; try assumption.
+    all: destruct (H2 v H0); assumption.
+  Qed.
+
+  Lemma fill_map_sorted : forall (m : list (str * X)) (acc c : bucket),
+    Sorted str_lt (a_keys acc) -> fill_map f m acc = Ok c -> Sorted str_lt (a_keys c).
+  Proof.
+    induction m as [|[k x] t IH]; intros acc c Hs H; cbn [fill_map] in H; [inversion H; subst; exact Hs|].
+    destruct (f x) as [n| | |] eqn:Ef; cbn [bind] in H; try discriminate.
+    destruct (place k n acc) as [acc1| | |] eqn:Ep; cbn [bind] in H; try discriminate.
+    apply (IH acc1 c); [|exact H]. rewrite (place_ok_insert _ _ _ _ Ep). apply a_insert_sorted. exact Hs.
+  Qed.
+
+  Lemma fill_map_lookup : forall (m : list (str * X)) (acc c : bucket),
+    NoDup (map fst m) -> fill_map f m acc = Ok c ->
+    (forall k x, In (k, x) m -> exists n, f x = Ok n /\ a_lookup k c = Some n) /\
+    (forall k, ~ In k (map fst m) -> a_lookup k c = a_lookup k acc).
+  Proof.
+    induction m as [|[k x] t IH]; intros acc c Hnd H; cbn [fill_map] in H.
+    - inversion H; subst. split; [intros k x [] | reflexivity].
+    - destruct (f x) as [n| | |] eqn:Ef; cbn [bind] in H; try discriminate.
+      destruct (place k n acc) as [acc1| | |] eqn:Ep; cbn [bind] in H; try discriminate.
+      cbn [map fst] in Hnd. inversion Hnd as [|? ? Hnotin Hnd']; subst.
+      destruct (IH acc1 c Hnd' H) as [IH1 IH2]. split.
+      + intros k' x' [E|Hin].
+        * inversion E; subst k' x'. exists n. split; [exact Ef|].
+          rewrite (IH2 k Hnotin). exact (place_lookup_same _ _ _ _ Ep).
+        * exact (IH1 k' x' Hin).
+      + intros k' Hk'. cbn [map fst In] in Hk'.
+        rewrite IH2 by tauto. apply (place_lookup_other _ _ _ _ _ Ep). intros E. apply Hk'. left. congruence.
+  Qed.
+
+  Lemma fill_map_total : forall (m : list (str * X)) (acc : bucket),
+    NoDup (map fst m) -> (forall k, In k (map fst m) -> a_lookup k acc = None) ->
+    Forall entry_storable m -> exists c, fill_map f m acc = Ok c.
+  Proof.
+    induction m as [|[k x] t IH]; intros acc Hnd Hfresh Hst; [exists acc; reflexivity|].
+    inversion Hst as [|? ? (n & Hf & Hk & Hleaf) Hst']; subst. cbn [fst snd] in *.
+    cbn [map fst] in Hnd. inversion Hnd as [|? ? Hnotin Hnd']; subst.
+    cbn [fill_map]. rewrite Hf. cbn [bind].
+    rewrite (place_fresh_storable k n acc Hk Hleaf) by (apply Hfresh; left; reflexivity). cbn [bind].
+    apply IH; [exact Hnd' | | exact Hst'].
+    intros k' Hk'. rewrite a_lookup_insert_other by (intros E; subst k'; contradiction).
+    apply Hfresh. right. exact Hk'.
+  Qed.
+
+  Lemma fill_map_perm_ok (m m' : list (str * X)) (c : bucket) :
+    NoDup (map fst m) -> Permutation m m' -> fill_map f m [] = Ok c -> fill_map f m' [] = Ok c.
+  Proof.
+    intros Hnd Hperm H.
+    assert (Hnd' : NoDup (map fst m')) by (apply (Permutation_NoDup (Permutation_map fst Hperm)); exact Hnd).
+    pose proof (fill_map_storable _ _ _ H) as Hst.
+    assert (Hst' : Forall entry_storable m') by (apply (Permutation_Forall Hperm); exact Hst).
+    destruct (fill_map_total m' [] Hnd' (fun _ _ => eq_refl) Hst') as (c' & Hc').
+    rewrite Hc'. f_equal.
+    destruct (fill_map_lookup _ _ _ Hnd H) as [L1 L2].
+    destruct (fill_map_lookup _ _ _ Hnd' Hc') as [L1' L2'].
+    apply sorted_assoc_ext.
+    - apply (fill_map_sorted m' [] c'); [constructor | exact Hc'].
+    - apply (fill_map_sorted m [] c); [constructor | exact H].
+    - intros k. destruct (in_dec (list_eq_dec N.eq_dec) k (map fst m)) as [Hin|Hnin].
+      + apply in_map_iff in Hin. destruct Hin as ([k0 x] & Hk0 & Hin). cbn in Hk0. subst k0.
+        destruct (L1 k x Hin) as (n & Hn & Hl).
+        destruct (L1' k x (Permutation_in _ Hperm Hin)) as (n' & Hn' & Hl').
+        rewrite Hn in Hn'. inversion Hn'; subst n'. rewrite Hl, Hl'. reflexivity.
+      + rewrite (L2 k Hnin).
+        rewrite (L2' k); [reflexivity|]. intros Hin. apply Hnin.
+        apply (Permutation_in _ (Permutation_sym (Permutation_map fst Hperm))). exact Hin.
+  Qed.
+
+  Lemma fill_map_perm (m m' : list (str * X)) :
+    NoDup (map fst m) -> Permutation m m' -> forall c, fill_map f m [] = Ok c <-> fill_map f m' [] = Ok c.
+  Proof.
+    intros Hnd Hperm c. split.
+    - apply fill_map_perm_ok; assumption.
+    - apply fill_map_perm_ok; [|apply Permutation_sym; exact Hperm].
+      apply (Permutation_NoDup (Permutation_map fst Hperm)). exact Hnd.
+  Qed.
+End MapOrder.
+
+Lemma map_node_order_irrelevant (an : bool) (m m' : list (str * value)) :
+  NoDup (map fst m) -> Permutation m m' -> forall n, map_node an m = Ok n <-> map_node an m' = Ok n.
+Proof.
+  intros Hnd Hperm n. unfold map_node.
+  pose proof (fill_map_perm value (entry_node an) m m' Hnd Hperm) as H.
+  split; intros E.
+  - destruct (fill_map (entry_node an) m []) as [c| | |] eqn:Ec; cbn [bind] in E; try discriminate.
+    rewrite (proj1 (H c) eq_refl). exact E.
+  - destruct (fill_map (entry_node an) m' []) as [c| | |] eqn:Ec; cbn [bind] in E; try discriminate.
+    rewrite (proj2 (H c) eq_refl). exact E.
 Qed.
